@@ -547,6 +547,25 @@ def run_c15(argv):
                               f"{dupidx}, equivalent-to-earlier are {want_dup}", input=show[:20],
                               expected=[want_dup, want_first], observed=[dupidx, first_idx])
                 continue
+            if (dupidx != want_dup or first_idx != want_first) and mode is None and has_unknown:
+                # is the deviation due to the untyped reactions alone (known finding F14: equality with an UNKNOWN-typed
+                # reaction is not transitive and the default mode compares with one stored representative)?  Decide it on the
+                # list itself: without its untyped members the report must be exact.
+                typed = [r for r in lst if r["type"] != 999]
+                with silenced():
+                    setup_species()
+                    tnet = Network([Reaction(list(r["re"]), list(r["pr"]), r["tmin"], r["tmax"], 1e-10, 0.0, 0.0, RT(r["type"]), i)
+                                    for i, r in enumerate(typed)])
+                    _, tdup, tfirst = tnet.find_duplicate_reaction(mode=None)
+                t_want_dup = [i for i in range(len(typed)) if any(pair_equiv(typed[j], typed[i], None) for j in range(i))]
+                t_want_first = [i for i in range(len(typed)) if not any(pair_equiv(typed[j], typed[i], None) for j in range(i))
+                                and any(pair_equiv(typed[i], typed[j], None) for j in range(i + 1, len(typed)))]
+                if tdup == t_want_dup and [r.idxfromfile for r in tfirst] == t_want_first:
+                    chk.violation({"kind": "default-mode-dict-semantics", "cause": "untyped"},
+                                  f"default mode on a list that mixes typed and untyped (UNKNOWN) reactions: reported {dupidx[:12]}…, "
+                                  f"equivalent-to-earlier are {want_dup[:12]}… (exact once the untyped reactions are left out)",
+                                  input=show[:20], expected=[want_dup, want_first], observed=[dupidx, first_idx])
+                    continue
             if dupidx != want_dup or first_idx != want_first:
                 chk.violation({"kind": "duplicate-report", "mode": str(mode), "untyped_mixed": has_unknown and mode is None},
                               f"mode {mode}: reported {dupidx}/{first_idx}, equivalent-to-earlier are {want_dup}/{want_first}",
